@@ -6,6 +6,7 @@ pub mod fuzzing;
 pub mod hist;
 pub mod holddir;
 pub mod known;
+pub mod loggate;
 pub mod props;
 pub mod qmodel;
 pub mod rich;
